@@ -11,7 +11,7 @@ def run(d, n, only=None):
     if n > 1: cmd += ["-n", str(n)]
     if only: cmd += only
     env = dict(os.environ); env.pop("PGMPY_VERIF", None)
-    env.update(OMP_NUM_THREADS="1", MKL_NUM_THREADS="1", OPENBLAS_NUM_THREADS="1")
+    env.update(LOKY_MAX_CPU_COUNT="2", OMP_NUM_THREADS="1", MKL_NUM_THREADS="1", OPENBLAS_NUM_THREADS="1")
     subprocess.run(cmd, cwd=d, env=env, stdout=subprocess.DEVNULL, stderr=subprocess.DEVNULL)
     res = {}
     for tc in ET.parse(xml).getroot().iter("testcase"):
